@@ -91,6 +91,7 @@ def set_contract(K):
         t.append(sig + COMMON_REQ)
         t.append('__CPROVER_requires(__CPROVER_is_fresh(val->%s, sizeof(%s)))\n' % (mem, st))
         t.append('__CPROVER_requires(val->%s->data_length == vp_dlen && vp_dlen %% %du == 0u && __CPROVER_is_fresh(val->%s->data, vp_dlen))\n' % (mem, w, mem))
+        t.append('__CPROVER_requires(VP_FB_REQ(%du))\n' % w)
         t.append('__CPROVER_requires(__CPROVER_is_fresh(pdu, %s + 2u + vp_dlen + vp_extra))\n' % DOFF)
         t.append(HDR_REQ % K)
         t.append('__CPROVER_assigns(vp_mode <= 1u : __CPROVER_object_upto(VP_PB(pdu) + %s, 2u + vp_dlen))\n' % DOFF)
@@ -126,6 +127,7 @@ def get_contract(K):
         lab, mem, ct, w, kind, st = POINTERS[K]
         t.append(sig + COMMON_REQ)
         t.append('__CPROVER_requires(vp_mode <= 1u && vp_dlen %% %du == 0u)\n' % w)
+        t.append('__CPROVER_requires(VP_FB_REQ(%du))\n' % w)
         t.append('__CPROVER_requires(__CPROVER_is_fresh(pdu, %s + 2u + vp_dlen))\n' % DOFF)              # EXACT extent of the message
         t.append(HDR_REQ % K)
         t.append('__CPROVER_requires(vp_be16(VP_PB(pdu) + %s) == vp_dlen)\n' % DOFF)
@@ -178,7 +180,9 @@ def get_loop(K):
     return {'Avtp_Vss_GetVssData': [{'template': tmpl, 'symbols': ['i', 'val', 'vss_data_ptr'], 'case_label': lab, 'src': VSS_SRC}]}
 
 
-VSS_GHOSTS = GHOSTS + 'unsigned vp_mode, vp_plen, vp_dlen;\n'
+VSS_GHOSTS = (GHOSTS + 'unsigned vp_mode, vp_plen, vp_dlen;\n'
+              '/* bounded FALLBACK build only (-DVP_FB_ELEMS=n): values of at most n elements */\n'
+              '#ifdef VP_FB_ELEMS\n#define VP_FB_REQ(w) (vp_dlen <= VP_FB_ELEMS * (w) && vp_plen <= 16u)\n#else\n#define VP_FB_REQ(w) 1\n#endif\n')
 VSS_HAVOC = HAVOC_GHOSTS + '    vp_mode = nondet_uint(); vp_plen = nondet_uint(); vp_dlen = nondet_uint();\n'
 
 
@@ -243,11 +247,25 @@ def vss_jobs(model, tier, config='le'):
                      harness('    Avtp_Vss_t *pdu; VssData_t *val;', '%s(pdu, val);' % fn))
             cm = dict(htags)
             cm.update(tu.tags)
-            jobs.append(Job('%s/%s' % (fn, lab), tu.text(), srcs, enforce=fn,
-                            replace=['Avtp_Vss_CalcVssPathLength', 'Avtp_Vss_GetDatatype/vp_dt_GetDatatype', 'Avtp_Vss_GetAddrMode'],
+            assume = ['byte-order helpers are inlined (loop-free) in the VSS codec proofs; their own contracts are proved under C13',
+                      'per-datatype specialisation: Avtp_Vss_GetDatatype replaced by its contract instance at the code (itself enforced on the real getter)']
+            repl = ['Avtp_Vss_CalcVssPathLength', 'Avtp_Vss_GetDatatype/vp_dt_GetDatatype', 'Avtp_Vss_GetAddrMode']
+            fb = None
+            if lc and config == 'le':
+                # (big-endian configuration: no fallback - CBMC's big-endian model mis-handles the union-held destination pointer once the
+                # loop is unwound instead of abstracted by its contract; such a run stays undecided)
+                # used only when the loop contract cannot be attached to the loop as it is written now (rewritten loop,
+                # renamed counter): same contract, values of at most FB elements, loops closed by unwinding assertions
+                FB = 4
+                fb = Job('%s/%s~bounded-fallback' % (fn, lab), tu.text(), srcs, enforce=fn, replace=repl,
+                         owners={'post': [pid], 'safety': [pid], 'assigns': [pid, 'C16'], 'loop': [pid], 'unwind': [pid]},
+                         clause_map=cm, function=fn, kind='vss-' + side + '-fallback', config=config, timeout=1800, obj_bits=10,
+                         extra_cc=['-DVP_FB_ELEMS=%du' % FB], unwind={fn: FB + 2}, assumptions=assume,
+                         bounded='BOUNDED FALLBACK (loop contract not attachable to the rewritten loop): values of at most %d elements, '
+                                 'interop paths of at most 16 bytes, loops unwound %d times with unwinding assertions' % (FB, FB + 2))
+            jobs.append(Job('%s/%s' % (fn, lab), tu.text(), srcs, enforce=fn, replace=repl,
                             loop_contracts=lc, owners={'post': [pid], 'safety': [pid], 'assigns': [pid, 'C16'], 'loop': [pid]},
                             clause_map=cm, function=fn, kind='vss-' + side, config=config, timeout=2400, obj_bits=10,
                             chunk=(40 if (side == 'set' and K in POINTERS and POINTERS[K][3] > 1) else None), chunk_par=4,
-                            assumptions=['byte-order helpers are inlined (loop-free) in the VSS codec proofs; their own contracts are proved under C13',
-                                         'per-datatype specialisation: Avtp_Vss_GetDatatype replaced by its contract instance at the code (itself enforced on the real getter)']))
+                            assumptions=assume, fallback=fb))
     return jobs
